@@ -27,8 +27,8 @@ from pathlib import Path
 VERIF = Path(__file__).resolve().parent.parent
 LEAN = VERIF / "lean"
 REPO = Path(os.environ.get("SLEAP_NN_REPO", "/repo"))
-EVID = VERIF / "evidence"
-REPLAYS = VERIF / "replays"
+EVID = Path(os.environ.get("VERIF_EVIDENCE_DIR") or (VERIF / "evidence"))  # override only for seeded-mutation runs
+REPLAYS = Path(os.environ.get("VERIF_REPLAY_DIR") or (VERIF / "replays"))
 CORPUS = VERIF / "corpus"
 KNOWN = VERIF / "KNOWN_FINDINGS.json"
 STD_AXIOMS = {"propext", "Classical.choice", "Quot.sound"}
